@@ -89,6 +89,9 @@ type c01Call struct {
 	// the implementation sets every out parameter to the zero value of its type (empty vectors, maps, strings): with
 	// Prior this is where content of a used out variable could survive (ResetDefault, ReadSliceInt8/Uint8)
 	EmptyOuts bool `json:"empty_outs,omitempty"`
+	// Big > 0: string and byte vector arguments / results are about that many bytes (packets beyond the read buffers)
+	Big     int  `json:"big,omitempty"`
+	NoModel bool `json:"no_model,omitempty"`
 	// DeepPrior > 0: out variables of type Node hold a chain nested that many structs deep (2n-1 levels on the wire)
 	DeepPrior int `json:"deep_prior,omitempty"`
 	// observations, filled in by the child
@@ -105,9 +108,19 @@ type c01Call struct {
 }
 
 // c01Case is a batch of calls on one proxy: one call, or several concurrent callers.
+// c01Burst: G goroutines x N small calls with unique payloads on one proxy (request-id allocation and reply routing
+// under contention); L3 only
+type c01Burst struct {
+	G     int      `json:"g"`
+	N     int      `json:"n"`
+	Ms    float64  `json:"ms,omitempty"`
+	Fails []string `json:"fails,omitempty"`
+}
+
 type c01Case struct {
 	Cfg   c01Cfg    `json:"cfg"`
 	Calls []c01Call `json:"calls"`
+	Burst *c01Burst `json:"burst,omitempty"`
 	Died  string    `json:"died,omitempty"`
 }
 
@@ -238,6 +251,33 @@ func c01Gen(tier string, rng *rand.Rand) []c01Case {
 				}
 				one(w)
 			}
+		}
+		// packets around and beyond the transports' read buffers (4096-byte client buffer, server buffer), alone and pipelined
+		if ci%4 == 0 || tier == "thorough" {
+			for _, n := range []int{4000, 4070, 4090, 4096, 4100, 8192, 12000, 66000} {
+				b := c01RandCall(rng, []string{"fString", "fBytes", "fUBytes"}[rng.Intn(3)])
+				b.ErrKind, b.OneWay, b.Big, b.EmptyOuts = 0, false, n+rng.Intn(9)-4, false
+				b.NoModel = n > 4200 || ci != 0 // the model evaluation of large payloads is slow: elsewhere monitors only
+				one(b)
+			}
+			m := c01RandCall(rng, "fBytes")
+			m.ErrKind, m.OneWay, m.Big, m.EmptyOuts, m.NoModel = 0, false, 1<<20, false, true
+			one(m)
+			cs := c01Case{Cfg: cfg}
+			for k := 0; k < 24; k++ {
+				b := c01RandCall(rng, []string{"fString", "fBytes", "fUBytes"}[rng.Intn(3)])
+				b.ErrKind, b.OneWay, b.Big, b.EmptyOuts = 0, false, 300+rng.Intn(3000), false
+				if b.NOpts >= 1 && b.CtxKind == 0 {
+					b.CtxKind = 1
+				}
+				b.NoModel = k >= 4 || ci != 0
+				cs.Calls = append(cs.Calls, b)
+			}
+			out = append(out, cs)
+		}
+		// high-contention burst (one configuration in the quick tier, every configuration in the thorough tier)
+		if ci == 0 || tier == "thorough" {
+			out = append(out, c01Case{Cfg: cfg, Burst: &c01Burst{G: 64, N: 300}})
 		}
 		// concurrent callers on one proxy, unique payloads
 		sizes := []int{2, 7, 64}
@@ -395,6 +435,9 @@ func c01Coq(c *c01Case) []string {
 }
 
 func c01Class(c *c01Case) string {
+	if c.Burst != nil {
+		return fmt.Sprintf("%s/burst%dx%d", c.Cfg, c.Burst.G, c.Burst.N)
+	}
 	if len(c.Calls) == 1 {
 		k := c.Calls[0]
 		return fmt.Sprintf("%s/%s/opts%d/err%d/ow%v/prior%v/rctx%d", c.Cfg, k.Fn, k.NOpts, k.ErrKind, k.OneWay, k.Prior, k.RCtx)
@@ -444,6 +487,9 @@ func init() {
 			}
 			classes[c01Class(&cases[i])]++
 			ncalls += len(cases[i].Calls)
+			if cases[i].Burst != nil {
+				ncalls += cases[i].Burst.G * cases[i].Burst.N
+			}
 			if len(cases[i].Calls) > 1 {
 				nconc++
 			}
@@ -466,13 +512,14 @@ func init() {
 		for i := 0; i < len(cases) && i < 3; i++ {
 			res.Samples = append(res.Samples, cases[(i*7919)%len(cases)])
 		}
-		shard := 60
-		for off := 0; off < len(terms); off += shard {
-			end := off + shard
-			if end > len(terms) {
-				end = len(terms)
+		// shards of at most 60 cases and about 150 KB of case text (large payloads evaluate slowly; the driver runs the shards in parallel)
+		for off, nsh := 0, 0; off < len(terms); nsh++ {
+			end, size := off, 0
+			for end < len(terms) && end-off < 60 && (end == off || size+len(terms[end]) <= 150000) {
+				size += len(terms[end])
+				end++
 			}
-			name := filepath.Join(a.Out, fmt.Sprintf("cases_C01_%d.v", off/shard))
+			name := filepath.Join(a.Out, fmt.Sprintf("cases_C01_%d.v", nsh))
 			var sb strings.Builder
 			sb.WriteString("From TarsV Require Import Base.Hex Codec.GenCodec Codec.Corr Gen.Schemas Rpc.Filters Rpc.EndToEnd Rpc.EndToEndCorr.\nFrom Coq Require Import List NArith ZArith.\nImport ListNotations.\nOpen Scope N_scope.\n")
 			sb.WriteString("Definition cases : list c01_case := [\n")
@@ -484,6 +531,7 @@ func init() {
 				fatal("write: %v", err)
 			}
 			res.CaseFiles = append(res.CaseFiles, name)
+			off = end
 		}
 		writeResult(a, res)
 	}
